@@ -128,6 +128,27 @@ CLAIMED = {
         text="Exhaustive over abstract file structures (joint types, omitted optional parts, fixed joints in any position, "
              "world link) to a size and random to 12 joints; exact oracle from TLC on the palette, RefEval off it.",
         note="TLC exact arithmetic (QSE3); RefEval chain for float variants; ElementTree walker for bundled files"),
+    "C09": dict(
+        level="model_checking", design="3/C09",
+        technique="TLA+ spec StewartGeom.tla over QSE3.tla: TLC proves rigid-motion invariance, relative-pose dependence "
+                  "and re-spin relabelling of the leg lengths exactly on a lattice platform and exports exact squared "
+                  "lengths that a real SP must return; law traces over generated geometries (IK = joint distances, "
+                  "invariance, FK round trip for both solvers, before/after move and spinCustom) decided by TLC "
+                  "against LawTrace.tla",
+        text="Exact oracle from TLC on the lattice platform; over the geometry/pose ranges of the quantifier the laws are "
+             "evaluated on the real class with plate-fixed tables read through public getters, thresholds and coverage "
+             "decided by TLC. Sampling off the lattice.",
+        note="TLC exact arithmetic; getters for joint tables; 1e-9 for IK, 1e-3 of neutral height for FK recovery"),
+    "C11": dict(
+        level="model_checking", design="3/C11",
+        technique="TLA+ spec StewartGeom.tla: TLC proves the row identity L*dL = d.(w x p + v) = [q x d, d].(w,v) for integer "
+                  "twists and exports exact scaled rows compared with inverseJacobian(); law traces (Richardson derivative "
+                  "of the code's IK lengths vs J^-1 V, static equilibrium in space and body interfaces, summed leg "
+                  "wrenches, carryMassCalc) decided by TLC against LawTrace.tla",
+        text="Exact rows on the lattice platform; derivative and equilibrium laws at random placements, after move and "
+             "re-spin, arbitrary twists and wrenches, cond <= 1e4. Finite differences thresholded at 1e-6, equilibrium "
+             "at 1e-8.",
+        note="TLC exact arithmetic for rows; finite differences of the implementation's IK; float linear solves"),
 }
 
 NOT_YET = "check not built yet in this round (planned: see DESIGN.md section 3)"
